@@ -78,6 +78,32 @@ def build_ops(seed):
             ops.append(("kw", cname, name, mode, counts))  # twice: the holder of the first may change its list values
             if pls:
                 ops.append(("parse", key[0:1], key[1:2], mode, pls[-1]))
+    # multi-layout messages whose layout is chosen by a payload byte: one payload per layout, all of the SAME length
+    # (a state kept across calls that is keyed by class/ID, mode or length then shows up as an order dependence)
+    try:
+        from contracts.oracle import expected_definition_rules
+        modeidx = {"GET": 0, "SET": 1, "POLL": 2}
+        keys2 = sorted({k[0:2] for k in UBX_MSGIDS})
+        for mname, midx in modeidx.items():
+            for key in keys2:
+                rules = expected_definition_rules(mname, key, UBX_MSGIDS)
+                if rules is None:
+                    continue
+                conds = [c for c, _ in rules["payload"]]
+                byte_conds = [c for c in conds if c[0] == "byte"]
+                if not byte_conds:
+                    continue
+                pos = byte_conds[0][1]
+                vals = [c[2] for c in byte_conds if c[1] == pos]
+                other = next(v for v in range(256) if v not in vals)
+                for L in (40, 528):
+                    for v in vals[:6] + [other]:
+                        for fill in (0, 1):
+                            pl = bytearray([fill]) * L
+                            pl[pos] = v
+                            ops.append(("ctor", key[0:1], key[1:2], midx, bytes(pl), True))
+    except Exception:  # noqa
+        pass
     # unknown classes / IDs, short and long payloads
     for _ in range(40):
         ops.append(("ctor", bytes([rnd.randrange(256)]), bytes([rnd.randrange(256)]), rnd.randrange(3),
